@@ -135,7 +135,8 @@ def load_known(prop):
             data = json.load(f)
     except FileNotFoundError:
         return []
-    return [k for k in data.get('findings', []) if k.get('property') == prop]
+    # `also`: a finding recorded under one property that the check of another property meets too (same defect, same inputs)
+    return [k for k in data.get('findings', []) if k.get('property') == prop or prop in (k.get('also') or [])]
 
 
 def known_matches(k, v):
